@@ -775,6 +775,8 @@ func (w *world) apply(line string) string {
 			}
 		} else if allow0.Cmp(allow1) != 0 {
 			w.violate(fmt.Sprintf("failed transferFromShares changed the allowance from %s to %s", allow0, allow1))
+		} else if kind == "err:allowance" && allow0.Cmp(x) >= 0 {
+			w.violate(fmt.Sprintf("transferFromShares of %s shares refused as exceeding the allowance although the allowance is %s (using up the whole allowance must be possible)", x, allow0))
 		}
 	case "multiFrom":
 		// ONE transaction of the spender contract: it calls transferFromShares(v, from, to, x) for every (v, x) pair;
@@ -1343,6 +1345,15 @@ func (w *world) checkTransfer(name string, before snap, kind string, from, to, v
 		class += "/incoming-redelegation"
 	}
 	if kind != "ok" {
+		// a refusal must be truthful: the quantifier of the property includes FULL amounts, so "insufficient shares" for a
+		// sender that holds at least x (boundary: exactly x) — or a redelegation refusal without an incoming redelegation —
+		// denies a transfer the property promises
+		if kind == "err:insufficient" && x.Sign() > 0 && before.sh(from, v).GTE(xs) {
+			w.violate(fmt.Sprintf("%s of %s shares refused as insufficient although the sender holds %s shares (a transfer of the full amount must be possible)", name, x, before.sh(from, v)))
+		}
+		if kind == "err:recvRedel" && !recv {
+			w.violate(name + " refused because of an incoming redelegation the sender does not have")
+		}
 		return class
 	}
 	if recv {
@@ -2017,5 +2028,12 @@ func TestC11(t *testing.T) {
 			n = 30 + rng.Intn(120)
 		}
 		runSeq(nVal, nUsers, nil, n)
+	}
+
+	// round 5: the same calls as signed transactions in real blocks (FinalizeBlock + Commit), monitor-only (c11blocks_test.go)
+	if hx.ReplayFile() == "" {
+		for i, nb := 0, hx.N(8, 60); i < nb; i++ {
+			blockHistory(t, out, rng, 6+rng.Intn(10))
+		}
 	}
 }
